@@ -5,6 +5,12 @@
 #[cfg(stageleft_runtime)]
 hydro_lang::setup!();
 
+/// Location tags used by corpus programs (must be nameable from the staged copy of this crate).
+pub mod tags {
+    pub struct Client;
+    pub struct Server;
+}
+
 #[cfg(test)]
 mod c31;
 #[cfg(test)]
